@@ -1,5 +1,6 @@
 import AmiscModel.Index
 import AmiscModel.Interp
+import AmiscModel.Store
 import AmiscModel.Generated.Transforms
 import AmiscModel.Generated.Consts
 import AmiscModel.Generated.Facts
